@@ -61,6 +61,14 @@ func genUniverse(rng *vlib.RNG, prefix string, k int, planted string) *symUniver
 			def(fmt.Sprintf("%s.%s.In%d", pkg, mn, j))
 			def(fmt.Sprintf("%s.%s.IN%d_%d_A", pkg, mn, i, j))
 		}
+		if rng.Chance(0.4) {
+			// a dependency that every compilation gets as a ready-made descriptor (not a result of this compiler)
+			full := sb.String()
+			sb.Reset()
+			sb.WriteString(strings.Replace(full, "import \""+u.base+"\";\n", "import \""+u.base+"\";\nimport \"google/protobuf/descriptor.proto\";\n", 1))
+			fmt.Fprintf(&sb, "extend google.protobuf.MessageOptions { optional int32 mo%d = %d; }\n", i, 50000+i)
+			def(fmt.Sprintf("%s.mo%d", pkg, i))
+		}
 		ne := rng.Range(0, 3)
 		for j := 0; j < ne; j++ {
 			num := int32(1000 + i*100 + j)
@@ -161,7 +169,8 @@ func compileBase(u *symUniverse, sym *linker.Symbols) (linker.File, error) {
 }
 
 func (u *symUniverse) resolver(base linker.File) protocompile.Resolver {
-	return protocompile.ResolverFunc(func(name string) (protocompile.SearchResult, error) {
+	// google/protobuf/*.proto come from the standard imports: descriptors that are not results of this compiler
+	return protocompile.WithStandardImports(protocompile.ResolverFunc(func(name string) (protocompile.SearchResult, error) {
 		if name == u.base {
 			// the already linked dependency OBJECT is shared between compilations
 			return protocompile.SearchResult{Desc: base}, nil
@@ -171,7 +180,7 @@ func (u *symUniverse) resolver(base linker.File) protocompile.Resolver {
 			return protocompile.SearchResult{}, fmt.Errorf("file not found: %s", name)
 		}
 		return protocompile.SearchResult{Source: strings.NewReader(s)}, nil
-	})
+	}))
 }
 
 func collisionSeen(outs []*gen.Outcome) (bool, []string) {
